@@ -1002,6 +1002,12 @@ class Lower:
                 return '(*%s)' % self.ex(a0)
             if name == 'operator=':
                 return '%s = %s' % (self.ex(a0), self.ex(args[1]))
+            if name == 'operator++':
+                # unordered_map iterator: the next entry (arbitrary) or end()
+                m = self.types.mangle(t.args[0])
+                if m.startswith('pair_'):
+                    e = self.ex(a0)
+                    return '%s = umap_%s__next(%s)' % (e, m[5:], e)
             raise LowerError('iterator ' + name)
         if cls == 'uptr':
             if name == 'operator->':
